@@ -68,6 +68,10 @@ def gen_input(rng, thorough):
     if with_ghi:
         df["ghi"] = np.round(np.maximum(0, 500 * np.sin((h % 24 - 6) / 12 * np.pi)), 2)
     electric = rng.random() < 0.6
+    if rng.random() < 0.3:
+        # a net-metered site: usage goes negative while the panels export (legitimate for electricity; for gas it only
+        # raises a sufficiency flag, the values are still the supplied ones)
+        df["observed"] = np.round(df["observed"] - 1.6, 4)
     # NaN cells, zeros
     for col in df.columns:
         for _ in range(rng.randrange(0, 6)):
